@@ -258,9 +258,54 @@ def check(built, curve, n, timeout):
     return obs
 
 
+# closed cases (no free variable): special encodings whose fate the formats fix.  Evaluated by one native
+# run each and reported as ground facts (DESIGN 2.6), not as solver coverage.
+def _le(x, n):
+    return list(x.to_bytes(n, "little"))
+
+
+SPECIAL = {
+    "ed25519": [("neutral (y=1)", _le(1, 32), True), ("non-canonical neutral: y=1 with sign bit", _le(1 | 1 << 255, 32), False),
+                ("y=p-1 (x=0) with sign bit", _le((F.P25519 - 1) | 1 << 255, 32), False), ("y=p-1 (order 2)", _le(F.P25519 - 1, 32), True),
+                ("y=p (non-canonical 0)", _le(F.P25519, 32), False), ("y=2^255-1", _le((1 << 255) - 1, 32), False)],
+    "ed448": [("neutral (y=1)", _le(1, 57), True), ("y=1 with sign bit (x=0)", _le(1, 56) + [0x80], False),
+              ("y=p-1 with sign bit", _le(F.P448 - 1, 56) + [0x80], False), ("byte 56 = 0x40", _le(1, 56) + [0x40], False),
+              ("byte 56 = 0x01", _le(1, 56) + [0x01], False), ("y=p", _le(F.P448, 56) + [0], False)],
+    "ristretto255": [("neutral (all zero)", [0] * 32, True), ("s = p (non-canonical 0)", _le(F.P25519, 32), False),
+                     ("s = 1 (negative)", _le(1, 32), False), ("s = p - 1", _le(F.P25519 - 1, 32), False)],
+    "decaf448": [("neutral (all zero)", [0] * 56, True), ("s = p", _le(F.P448, 56), False), ("s = 1 (negative)", _le(1, 56), False)],
+    "jq255e": [("neutral (all zero)", [0] * 32, True), ("u = p", _le(F.P255E, 32), False), ("top bit set", [0] * 31 + [0x80], False)],
+    "jq255s": [("neutral (all zero)", [0] * 32, True), ("u = p", _le(F.P255S, 32), False), ("top bit set", [0] * 31 + [0x80], False)],
+    "gls254": [("neutral (all zero)", [0] * 32, True), ("bit 127 set", [0] * 15 + [0x80] + [0] * 16, False),
+               ("bit 255 set", [0] * 31 + [0x80], False)],
+    "p256": [("33 zero bytes", [0] * 33, False),
+             ("x = p with 02", [2] + list(F.P256.to_bytes(32, "big")), False)],
+    "secp256k1": [("33 zero bytes", [0] * 33, False), ("x = p with 02", [2] + list(F.PSECP.to_bytes(32, "big")), False),
+                  ("x = 1 (on curve? y^2 = 8: not a square)", [2] + [0] * 31 + [1], None)],
+}
+
+
+def ground_facts(built, curves):
+    gf = {"checked": 0, "failed": 0, "facts": []}
+    bad = []
+    for c in curves:
+        for label, enc, want in SPECIAL.get(c, []):
+            drv = "drv_%s_sd_%d" % (c, len(enc))
+            if drv not in built.drivers or want is None:
+                continue
+            nat = built.native(drv, {"buf": enc})
+            ok = (nat["st"][0] == ALL1) == want and nat["st"][0] in (0, ALL1)
+            gf["checked"] += 1
+            gf["facts"].append({"curve": c, "case": label, "expected_accept": want, "status": hex(nat["st"][0]), "holds": ok})
+            if not ok:
+                gf["failed"] += 1
+                bad.append((c, label, enc, nat["st"][0], want))
+    return gf, bad
+
+
 def run(tier, only=None):
     t0 = time.time()
-    curves = [c for c in CURVES if (tier == "thorough" or c in QUICK) and (not only or c in only)]
+    curves = [c for c in CURVES if (c in only if only else (tier == "thorough" or c in QUICK))]
     built = build(drivers(curves), tag="C06-default")
     items = [(c, n) for c in curves for n in lengths(c)]
     timeout = 60 if tier == "quick" else 600
@@ -279,8 +324,15 @@ def run(tier, only=None):
             obs.append(o)
             if "MachineryError" in str(val):
                 merr = str(val)[-500:]
+    gf, bad = ground_facts(built, curves)
+    for c, label, enc, st_, want in bad:
+        o = Obligation("default:%s.set_decode:special[%s]" % (c, label), "ground", ["%s::Point::set_decode" % CURVES[c][0]],
+                       "one closed case", "this specific encoding must be %s" % ("accepted" if want else "rejected"))
+        o.fail({"key": "%s.set_decode.special[%s]" % (c, label), "inputs": {"buf": bytes(enc).hex()}, "status": hex(st_),
+                "expected_accept": want, "found_by": "ground fact (native run of a closed case)"}, "native", 0.0, 0)
+        obs.append(o)
     built.close()
-    return finish("C06", tier, obs, t0,
+    return finish("C06", tier, obs, t0, ground_facts=gf,
                   functions_encoded=sorted(set(fn for o in obs for fn in o.functions)),
                   bounds={"lengths": "0, L-1, L, L+1 (SEC1 curves: 0,1,32,33,64,65,66); all bytes symbolic",
                           "method": "claims are proved on over-approximations of the status/point cones (deep sub-terms cut to fresh variables) before the full cone is tried"},
